@@ -194,6 +194,19 @@ func (hs *serverHandshakeState) readClientHello() (isResume bool, err error) {
 
 	c.haveVers = true
 
+	// See RFC 7507. The check applies to resumed sessions as well, so it
+	// has to be done before checkForResumption.
+	for _, id := range hs.clientHello.cipherSuites {
+		if id == TLS_FALLBACK_SCSV {
+			// The client is doing a fallback connection.
+			if hs.clientHello.vers < config.maxVersion() {
+				c.sendAlert(alertInappropriateFallback)
+				return false, errors.New("tls: client using inppropriate protocol fallback")
+			}
+			break
+		}
+	}
+
 	hs.useRC4 = config.checkCipherGrade(c)
 
 	hs.finishedHash = newFinishedHash(c.vers)
@@ -373,18 +386,6 @@ Curves:
 		state.TlsHandshakeNoSharedCipherSuite.Inc(1)
 		return false, fmt.Errorf("tls: no cipher suite supported by both client and server: %v",
 			hs.clientHello.cipherSuites)
-	}
-
-	// See https://tools.ietf.org/html/draft-ietf-tls-downgrade-scsv-00.
-	for _, id := range hs.clientHello.cipherSuites {
-		if id == TLS_FALLBACK_SCSV {
-			// The client is doing a fallback connection.
-			if hs.clientHello.vers < c.config.MaxVersion {
-				c.sendAlert(alertInappropriateFallback)
-				return false, errors.New("tls: client using inppropriate protocol fallback")
-			}
-			break
-		}
 	}
 
 	hs.validateHttp2Accepted()
